@@ -10,6 +10,7 @@ import (
 	"os/exec"
 	"path/filepath"
 	"runtime"
+	"runtime/debug"
 	"runtime/pprof"
 	"sort"
 	"strconv"
@@ -159,6 +160,10 @@ func runShard(p *Property, tier string, seed int64, shard, of, from, only, subFr
 	if p.ASLimit > 0 && !p.Race {
 		lim := syscall.Rlimit{Cur: p.ASLimit, Max: p.ASLimit}
 		_ = syscall.Setrlimit(syscall.RLIMIT_AS, &lim)
+		// a soft limit for the collector at half of it: garbage of thousands of inputs handled
+		// by one process must not be what exhausts the address space (a single request the
+		// limit cannot hold still fails, which is the event the limit is there to show)
+		debug.SetMemoryLimit(int64(p.ASLimit / 2))
 	}
 	f, err := os.OpenFile(outPath, os.O_WRONLY|os.O_APPEND|os.O_CREATE, 0o644)
 	if err != nil {
